@@ -2610,8 +2610,8 @@ class VM:
         new_target: JSValue = None,
     ) -> None:
         """Invoke a JavaScript function."""
-        # Handle bound functions
-        if hasattr(func, "_bound_this"):
+        # Handle bound functions (new ignores the bound this: it constructs a new object)
+        if hasattr(func, "_bound_this") and not is_constructor:
             this_val = func._bound_this
         if hasattr(func, "_bound_args"):
             args = list(func._bound_args) + list(args)
@@ -2687,9 +2687,12 @@ class VM:
                 raise JSTypeError(f"{target.name or 'method'} is not a constructor")
             # Create new object
             obj = JSObject()
-            # Set prototype from constructor's prototype property
-            if hasattr(constructor, "_prototype"):
-                obj._prototype = constructor._prototype
+            # Set prototype from the prototype property of the constructor (of its target,
+            # when it is a bound function); Object.prototype when that is not an object
+            proto = getattr(target, "_prototype", None)
+            obj._prototype = (
+                proto if isinstance(proto, JSObject) else self._object_prototype()
+            )
             # Call constructor with new object as 'this'
             # Mark this as a constructor call so RETURN knows to return the object
             self._invoke_js_function(
